@@ -7,6 +7,9 @@ import RpmVerif.Driver.C15
 import RpmVerif.Driver.C19
 import RpmVerif.Driver.C05
 import RpmVerif.Driver.C04
+import RpmVerif.Driver.C06
+import RpmVerif.Driver.C07
+import RpmVerif.Driver.C17
 /-! Driver: one request per line in (`<op> <args…> => <impl observation>`), one answer per line
 out (`<model observation> | <spec verdict> | <branch label>`).
 Each property contributes `Driver/Cxx.lean` with `ops : List String` and
@@ -22,7 +25,10 @@ def handlers : List (List String × (String → List String → String → Strin
   (C15.ops, C15.handle),
   (C19.ops, C19.handle),
   (C05.ops, C05.handle),
-  (C04.ops, C04.handle)
+  (C04.ops, C04.handle),
+  (C06.ops, C06.handle),
+  (C07.ops, C07.handle),
+  (C17.ops, C17.handle)
 ]
 
 def dispatch (line : String) : String :=
